@@ -83,6 +83,8 @@ CONES = [
     (r'^ProfilingDataset\.keys$', r'', {'C03'}),
     (r'^(Dataset\.cache|DictDataset\.__init__|ListDataset\.__init__)$', r'', {'C09'}),
     (r'^LocalShuffleDataset\.__init__$', r'', {'C12', 'C13'}),
+    # what a stage's constructor accepts, refuses and stores decides what its len / index / keys / iteration mean
+    (r'Dataset\.__init__$', r'', {'C01', 'C02', 'C03'}),
     # the database layer builds its datasets with from_dict / new / concatenate
     (r'^(\.from_dict|\.new|DictDataset\.__init__|ConcatenateDataset\.__init__|Dataset\.concatenate)$', r'', {'C19'}),
 ]
